@@ -2,47 +2,81 @@
 
    PART OF THE TRUSTED BASE: the terms `Definition fn_<name> : fn := ...` that translators/cxx_pure.py
    regenerates from clang's AST of /repo's functions on every run are given their meaning by this file, and
-   the theorems about them (C01/HelpersGen.v, ...) are only as good as this reading of the standard.
-   It is independent of any particular function.  Target: LP64, gcc / clang on x86-64.
+   the theorems about them (C01/HelpersGen.v, C01/TypedChainGen.v, Cxx/CheckTypeRange.v) are only as good as this
+   reading of the standard.  It is independent of any particular function.  Target: LP64, gcc / clang on x86-64.
 
-   Types       bool, int (32), unsigned int (32), long = int64_t (64), unsigned long = uint64_t (64).
+   Types       bool, int (32), unsigned int (32), long = int64_t (64), unsigned long = uint64_t (64), and the
+               INTEGER-VALUED part of long double (x87 extended precision: 64-bit significand, see [ld_round]).
    Values      (type, Z) with the integer inside the range of the type.
+   Expressions names, literals, casts, unary + - ! ~, the sixteen binary operators, && || ?:, `op == "literal"`.
+   Statements  return e; return; return builder(args) (uninterpreted result object); throw std::runtime_error(text);
+               if / else; T x = e; x = e; dropped diagnostic calls.  No loops, no calls, no pointers.
    Undefined   signed overflow of + - * and unary - [expr.pre]/4; / and % by zero, and / and % whose quotient
    behaviour   is not representable (INT64_MIN / -1, INT64_MIN % -1) [expr.mul]/4; shift count negative or
    (RUB)       >= width of the promoted left operand [expr.shift]/1; << of a negative signed value or with a
-               result not representable in the corresponding unsigned type [expr.shift]/2; flowing off the end
-               of a value-returning function [stmt.return]/2 is reported separately (RFallOff).
+               result not representable in the corresponding unsigned type [expr.shift]/2; conversion of a long
+               double outside the target integer type [conv.fpint]/1; flowing off the end of a value-returning
+               function [stmt.return]/2 is reported separately (RFallOff).
    Implement-  conversion of an out-of-range value to a signed type [conv.integral]/3: modulo 2^n (two's
    ation-      complement; gcc and clang document this, C++20 requires it); >> of a negative signed value
    defined     [expr.shift]/3: arithmetic shift = floor (a / 2^n) (gcc, clang); & | ^ ~ on signed operands act
-               on the two's-complement representation.
+               on the two's-complement representation; the format and rounding of long double.
    Everything is total and computable ([vm_compute] evaluates [run] on concrete arguments) and extractable. *)
 From Coq Require Import ZArith Bool String List.
 Import ListNotations.
 Local Open Scope Z_scope.
 
 (* ---------------------------------------------------------------- types [basic.fundamental] *)
-Inductive ity := TBool | TInt | TUInt | TLong | TULong.
+Inductive ity := TBool | TInt | TUInt | TLong | TULong | TLDouble.
 
 Definition ity_eqb (a b : ity) : bool :=
   match a, b with
-  | TBool, TBool | TInt, TInt | TUInt, TUInt | TLong, TLong | TULong, TULong => true
+  | TBool, TBool | TInt, TInt | TUInt, TUInt | TLong, TLong | TULong, TULong | TLDouble, TLDouble => true
   | _, _ => false
   end.
-Definition bits (t : ity) : Z := match t with TBool => 1 | TInt | TUInt => 32 | TLong | TULong => 64 end.
-Definition signed (t : ity) : bool := match t with TInt | TLong => true | _ => false end.
+Definition is_ld (t : ity) : bool := match t with TLDouble => true | _ => false end.
+(* for long double: the width of the significand *)
+Definition width (t : ity) : nat := match t with TBool => 1 | TInt | TUInt => 32 | TLong | TULong | TLDouble => 64 end.
+Definition bits (t : ity) : Z := Z.of_nat (width t).
+Definition signed (t : ity) : bool := match t with TInt | TLong | TLDouble => true | _ => false end.
 (* 2^bits, min and max as literals (CxxLemmas.modulus_spec / tmin_spec / tmax_spec prove they are what they should be) *)
 Definition modulus (t : ity) : Z :=
-  match t with TBool => 2 | TInt | TUInt => 4294967296 | TLong | TULong => 18446744073709551616 end.
+  match t with TBool => 2 | TInt | TUInt => 4294967296 | TLong | TULong | TLDouble => 18446744073709551616 end.
 Definition tmin (t : ity) : Z :=
   match t with TInt => -2147483648 | TLong => -9223372036854775808 | _ => 0 end.
 Definition tmax (t : ity) : Z :=
   match t with TBool => 1 | TInt => 2147483647 | TUInt => 4294967295
-             | TLong => 9223372036854775807 | TULong => 18446744073709551615 end.
-Definition in_range (t : ity) (z : Z) : bool := (tmin t <=? z) && (z <=? tmax t).
+             | TLong => 9223372036854775807 | TULong | TLDouble => 18446744073709551615 end.
+
+(* long double [basic.fundamental]/8 is implementation-defined; x86-64 gcc / clang: the x87 extended format, 64-bit
+   significand, exponent range far beyond anything reachable here, default rounding to nearest, ties to even.
+   Only INTEGER-VALUED long doubles are in the fragment: a value (TLDouble, z) is the long double equal to the integer z,
+   which exists iff z has at most 64 significant bits, i.e. [ld_round z = z].  Integer-valued long doubles are closed
+   under + - * (the exact result is an integer and rounding an integer of magnitude >= 2^64 yields an integer);
+   everything that could leave the integers (division, non-integer literals) is outside the fragment (EStuck). *)
+Definition ld_round (z : Z) : Z :=
+  if Z.abs z <? 18446744073709551616 then z else
+  let e := Z.log2 (Z.abs z) - 63 in
+  let m := Z.abs z in
+  let q := m / 2 ^ e in
+  let r := m mod 2 ^ e in
+  let half := 2 ^ (e - 1) in
+  let q' := if r <? half then q else if half <? r then q + 1 else if Z.even q then q else q + 1 in
+  Z.sgn z * (q' * 2 ^ e).
+
+Definition in_range (t : ity) (z : Z) : bool :=
+  match t with TLDouble => ld_round z =? z | _ => (tmin t <=? z) && (z <=? tmax t) end.
+(* the same test for the (closed) value of a literal, written with Z.compare so that proofs can keep <=? folded
+   on symbolic operands while literals still compute (CxxLemmas.lit_ok_spec: lit_ok = in_range) *)
+Definition lit_ok (t : ity) (z : Z) : bool :=
+  match t with
+  | TLDouble => match Z.compare (Z.abs z) 18446744073709551616 with Lt => true | _ => false end   (* exactly representable *)
+  | _ => match Z.compare (tmin t) z, Z.compare z (tmax t) with Gt, _ | _, Gt => false | _, _ => true end
+  end.
 
 Definition value := (ity * Z)%type.
 Definition b2z (b : bool) : Z := if b then 1 else 0.
+Definition nonzero (z : Z) : bool := match z with Z0 => false | _ => true end.   (* [conv.bool] *)
 
 (* ---------------------------------------------------------------- conversions
    [conv.bool]: zero -> false, anything else -> true.
@@ -51,7 +85,8 @@ Definition b2z (b : bool) : Z := if b then 1 else 0.
    modulo 2^n into the range (the formula below is the identity on representable values: CxxLemmas.conv_id). *)
 Definition conv (t : ity) (z : Z) : Z :=
   match t with
-  | TBool => if z =? 0 then 0 else 1
+  | TBool => b2z (nonzero z)
+  | TLDouble => ld_round z              (* [conv.fpint]/2 integer -> floating: exact if representable, else nearest *)
   | _ => if signed t then (z - tmin t) mod modulus t + tmin t else z mod modulus t
   end.
 
@@ -59,14 +94,15 @@ Definition conv (t : ity) (z : Z) : Z :=
 Definition promote (t : ity) : ity := match t with TBool => TInt | _ => t end.
 
 (* [expr.arith.conv]/1.5 on two PROMOTED types *)
-Definition rank (t : ity) : Z := match t with TBool => 0 | TInt | TUInt => 1 | TLong | TULong => 2 end.
+Definition rank (t : ity) : nat := match t with TBool => 0 | TInt | TUInt => 1 | TLong | TULong => 2 | TLDouble => 3 end.
 Definition to_unsigned (t : ity) : ity := match t with TInt => TUInt | TLong => TULong | _ => t end.
 Definition common (a b : ity) : ity :=
-  if ity_eqb a b then a                                                          (* 1.5.1 *)
-  else if Bool.eqb (signed a) (signed b) then (if rank a <? rank b then b else a) (* 1.5.2 *)
+  if is_ld a || is_ld b then TLDouble                                            (* 1.1 - 1.3 *)
+  else if ity_eqb a b then a                                                     (* 1.5.1 *)
+  else if Bool.eqb (signed a) (signed b) then (if Nat.ltb (rank a) (rank b) then b else a) (* 1.5.2 *)
   else let (s, u) := if signed a then (a, b) else (b, a) in
-       if rank s <=? rank u then u                                               (* 1.5.3 *)
-       else if bits u <? bits s then s                                           (* 1.5.4 *)
+       if Nat.leb (rank s) (rank u) then u                                       (* 1.5.3 *)
+       else if Nat.ltb (width u) (width s) then s                                (* 1.5.4 *)
        else to_unsigned s.                                                       (* 1.5.5 *)
 
 (* ---------------------------------------------------------------- syntax *)
@@ -93,7 +129,11 @@ Inductive stmt :=
 | SThrow (m : msg)                   (* throw std::runtime_error(m) *)
 | SIf (c : expr) (s1 s2 : stmt)
 | SDecl (t : ity) (x : string) (e : expr)   (* T x = e; *)
-| SEffect (what : string).           (* a call whose only effect is diagnostic output (error_msg / debug_msg): skip *)
+| SEffect (what : string)            (* a call whose only effect is diagnostic output (error_msg / debug_msg): skip *)
+| SAssign (x : string) (e : expr)    (* x = e; as a statement, x a local variable or parameter [expr.ass] *)
+| SReturnVoid                        (* return; *)
+| SReturnCall (tag : string) (args : list expr).
+                                     (* return tag(args); where tag builds the result object and is not interpreted *)
 
 Record fn := { f_name : string; f_ret : ity; f_sparam : string; f_params : list (string * ity); f_body : stmt }.
 
@@ -106,6 +146,20 @@ Definition env := list (string * value).
 Fixpoint lookup (x : string) (en : env) : option value :=
   match en with [] => None | (y, v) :: r => if String.eqb x y then Some v else lookup x r end.
 
+(* the ways to reach undefined behaviour *)
+Definition ub_add : string := "signed overflow in +".
+Definition ub_sub : string := "signed overflow in -".
+Definition ub_mul : string := "signed overflow in *".
+Definition ub_div0 : string := "division by zero".
+Definition ub_divovf : string := "quotient not representable in /".
+Definition ub_rem0 : string := "remainder by zero".
+Definition ub_removf : string := "quotient not representable in %".
+Definition ub_shcount : string := "shift count negative or not less than the width".
+Definition ub_shlneg : string := "left shift of a negative value".
+Definition ub_shlovf : string := "left shift result not representable".
+Definition ub_neg : string := "signed overflow in unary -".
+Definition ub_fpint : string := "floating value not representable in the integer type".
+
 (* signed result: must be representable [expr.pre]/4; unsigned: modulo 2^n [basic.fundamental]/4 *)
 Definition fit (t : ity) (r : Z) (what : string) : eres :=
   if signed t then (if in_range t r then EV (t, r) else EUB what) else EV (t, r mod modulus t).
@@ -113,16 +167,28 @@ Definition fit (t : ity) (r : Z) (what : string) : eres :=
 Definition is_cmp (o : binop) : bool := match o with BEq | BNe | BLt | BGt | BLe | BGe => true | _ => false end.
 Definition is_shift (o : binop) : bool := match o with BShl | BShr => true | _ => false end.
 
+(* long double operands (integer-valued): + - * round once, comparisons are exact; / may leave the integers, % & | ^
+   are ill-formed on floating operands [expr.mul]/2 [expr.bit.and] *)
+Definition ld_arith (o : binop) (a b : Z) : eres :=
+  match o with
+  | BAdd => EV (TLDouble, ld_round (a + b)) | BSub => EV (TLDouble, ld_round (a - b)) | BMul => EV (TLDouble, ld_round (a * b))
+  | BEq => EV (TBool, b2z (a =? b)) | BNe => EV (TBool, b2z (negb (a =? b)))
+  | BLt => EV (TBool, b2z (a <? b)) | BGt => EV (TBool, b2z (b <? a))
+  | BLe => EV (TBool, b2z (a <=? b)) | BGe => EV (TBool, b2z (b <=? a))
+  | _ => EStuck "long double operation outside the integer-valued fragment"
+  end.
+
 (* both operands already converted to the common type t *)
 Definition arith2 (o : binop) (t : ity) (a b : Z) : eres :=
+  if is_ld t then ld_arith o a b else
   match o with
-  | BAdd => fit t (a + b) "signed overflow in +"                                  (* [expr.add] *)
-  | BSub => fit t (a - b) "signed overflow in -"
-  | BMul => fit t (a * b) "signed overflow in *"                                  (* [expr.mul] *)
-  | BDiv => if b =? 0 then EUB "division by zero"                                 (* [expr.mul]/4: truncation *)
-            else fit t (Z.quot a b) "quotient not representable in /"
-  | BRem => if b =? 0 then EUB "remainder by zero"
-            else if in_range t (Z.quot a b) then EV (t, Z.rem a b) else EUB "quotient not representable in %"
+  | BAdd => fit t (a + b) ub_add                                  (* [expr.add] *)
+  | BSub => fit t (a - b) ub_sub
+  | BMul => fit t (a * b) ub_mul                                  (* [expr.mul] *)
+  | BDiv => if b =? 0 then EUB ub_div0                                 (* [expr.mul]/4: truncation *)
+            else fit t (Z.quot a b) ub_divovf
+  | BRem => if b =? 0 then EUB ub_rem0
+            else if in_range t (Z.quot a b) then EV (t, Z.rem a b) else EUB ub_removf
   | BAnd => EV (t, Z.land a b) | BOr => EV (t, Z.lor a b) | BXor => EV (t, Z.lxor a b)   (* [expr.bit.and] [expr.or] [expr.xor] *)
   | BEq => EV (TBool, b2z (a =? b)) | BNe => EV (TBool, b2z (negb (a =? b)))      (* [expr.eq] *)
   | BLt => EV (TBool, b2z (a <? b)) | BGt => EV (TBool, b2z (b <? a))             (* [expr.rel] *)
@@ -132,12 +198,13 @@ Definition arith2 (o : binop) (t : ity) (a b : Z) : eres :=
 
 (* [expr.shift]: t = promoted type of the left operand, n = value of the (promoted) right operand *)
 Definition shift (o : binop) (t : ity) (a n : Z) : eres :=
-  if (n <? 0) || (bits t <=? n) then EUB "shift count negative or not less than the width"
+  if is_ld t then EStuck "shift of a long double" else
+  if (n <? 0) || (bits t <=? n) then EUB ub_shcount
   else match o with
        | BShl => if signed t then
-                   if a <? 0 then EUB "left shift of a negative value"
+                   if a <? 0 then EUB ub_shlneg
                    else if a * 2 ^ n <=? tmax (to_unsigned t) then EV (t, conv t (a * 2 ^ n))
-                        else EUB "left shift result not representable"
+                        else EUB ub_shlovf
                  else EV (t, (a * 2 ^ n) mod modulus t)
        | _ => EV (t, a / 2 ^ n)       (* Z division rounds towards minus infinity: arithmetic shift *)
        end.
@@ -150,11 +217,15 @@ Definition binop_sem (o : binop) (va vb : value) : eres :=
 
 Definition unop_sem (o : unop) (v : value) : eres :=
   let (t, a) := v in let p := promote t in
+  if is_ld p then match o with
+                  | UPlus => EV (p, a) | UNeg => EV (p, - a) | UNot => EV (TBool, b2z (negb (nonzero a)))
+                  | UCompl => EStuck "~ of a long double"
+                  end else
   match o with
   | UPlus => EV (p, conv p a)                                                     (* [expr.unary.op]/7 *)
-  | UNeg => if signed p then fit p (- conv p a) "signed overflow in unary -"      (* [expr.unary.op]/8 *)
+  | UNeg => if signed p then fit p (- conv p a) ub_neg      (* [expr.unary.op]/8 *)
             else EV (p, (- conv p a) mod modulus p)
-  | UNot => EV (TBool, b2z (conv TBool a =? 0))                                   (* [expr.unary.op]/9 *)
+  | UNot => EV (TBool, b2z (negb (nonzero a)))                                    (* [expr.unary.op]/9 *)
   | UCompl => EV (p, if signed p then - conv p a - 1 else tmax p - conv p a)      (* [expr.unary.op]/10 *)
   end.
 
@@ -180,13 +251,24 @@ Fixpoint type_of (en : env) (e : expr) : option ity :=
       end
   end.
 
+(* conversion of a value of type ta to type t: between integer types and to long double [conv]; from an (integer-valued)
+   long double to an integer type [conv.fpint]/1: the value if representable, undefined behaviour otherwise; to bool
+   [conv.bool] *)
+Definition cast (ta t : ity) (z : Z) : eres :=
+  if is_ld ta && negb (is_ld t) && negb (ity_eqb t TBool)
+  then (if in_range t z then EV (t, z) else EUB ub_fpint)
+  else EV (t, conv t z).
+
+(* the test `op == "lit"` (a function of its own so that proofs can keep it folded while names are compared) *)
+Definition op_is (sp : string * string) (lit : string) : bool := String.eqb (snd sp) lit.
+
 (* sp = (name of the std::string parameter, its value). Operands have no side effects, so the unspecified
    evaluation order of the operands of a binary operator cannot be observed. *)
 Fixpoint eval (sp : string * string) (en : env) (e : expr) : eres :=
   match e with
   | EVar x => match lookup x en with Some v => EV v | None => EStuck ("unbound name " ++ x) end
-  | ELit t z => if in_range t z then EV (t, z) else EStuck "literal outside its type"
-  | ECast t a => match eval sp en a with EV (_, z) => EV (t, conv t z) | r => r end
+  | ELit t z => if lit_ok t z then EV (t, z) else EStuck "literal outside its type"
+  | ECast t a => match eval sp en a with EV (ta, z) => cast ta t z | r => r end
   | EUn o a => match eval sp en a with EV v => unop_sem o v | r => r end
   | EBin o a b =>
       match eval sp en a with
@@ -195,28 +277,28 @@ Fixpoint eval (sp : string * string) (en : env) (e : expr) : eres :=
       end
   | ELAnd a b =>                                                                  (* [expr.log.and]: short circuit *)
       match eval sp en a with
-      | EV (_, za) => if conv TBool za =? 0 then EV (TBool, 0)
-                      else match eval sp en b with EV (_, zb) => EV (TBool, conv TBool zb) | r => r end
+      | EV (_, za) => if nonzero za
+                      then match eval sp en b with EV (_, zb) => EV (TBool, conv TBool zb) | r => r end
+                      else EV (TBool, 0)
       | r => r
       end
   | ELOr a b =>                                                                   (* [expr.log.or] *)
       match eval sp en a with
-      | EV (_, za) => if conv TBool za =? 0
-                      then match eval sp en b with EV (_, zb) => EV (TBool, conv TBool zb) | r => r end
-                      else EV (TBool, 1)
+      | EV (_, za) => if nonzero za then EV (TBool, 1)
+                      else match eval sp en b with EV (_, zb) => EV (TBool, conv TBool zb) | r => r end
       | r => r
       end
   | ECond c a b =>                                                                (* [expr.cond]: only one branch *)
       match eval sp en c, type_of en e with
       | EV (_, zc), Some t =>
-          match (if conv TBool zc =? 0 then eval sp en b else eval sp en a) with
+          match (if nonzero zc then eval sp en a else eval sp en b) with
           | EV (_, z) => EV (t, conv t z)
           | r => r
           end
       | EV _, None => EStuck "untypable ?:"
       | r, _ => r
       end
-  | EStrEq x lit => if String.eqb x (fst sp) then EV (TBool, b2z (String.eqb (snd sp) lit))
+  | EStrEq x lit => if String.eqb x (fst sp) then EV (TBool, b2z (op_is sp lit))
                     else EStuck ("not the string parameter: " ++ x)
   end.
 
@@ -226,7 +308,9 @@ Inductive result :=
 | RThrow (m : string)     (* std::runtime_error(m) leaves the function *)
 | RUB (what : string)     (* undefined behaviour was reached *)
 | RFallOff                (* control reached the closing brace (undefined behaviour for a non-void function) *)
-| RStuck (what : string). (* not a well-formed call of a function of the fragment *)
+| RStuck (what : string)  (* not a well-formed call of a function of the fragment *)
+| RCall (tag : string) (vs : list value)  (* the result object tag(vs) is returned (tag is not interpreted) *)
+| RVoid.                  (* `return;` (a void function may also simply reach its end: RFallOff) *)
 Inductive outcome := ONext (en : env) | ODone (r : result).
 
 Fixpoint msg_text (sp : string * string) (m : msg) : option string :=
@@ -239,17 +323,52 @@ Fixpoint msg_text (sp : string * string) (m : msg) : option string :=
 Definition lift (r : eres) (k : Z -> outcome) : outcome :=
   match r with EV (_, z) => k z | EUB w => ODone (RUB w) | EStuck w => ODone (RStuck w) end.
 
+(* assignment to the innermost variable called x *)
+Fixpoint update (x : string) (v : value) (en : env) : env :=
+  match en with [] => [] | (y, w) :: r => if String.eqb x y then (y, v) :: r else (y, w) :: update x v r end.
+(* leaving a block: the names declared inside it (pushed in front) go out of scope, assignments to outer variables stay *)
+Definition leave (outer inner : env) : env := skipn (List.length inner - List.length outer) inner.
+
+(* the arguments of a result constructor (no side effects: their unspecified order cannot be observed) *)
+Fixpoint eval_args (sp : string * string) (en : env) (es : list expr) : result + list value :=
+  match es with
+  | [] => inr []
+  | e :: r => match eval sp en e with
+              | EV v => match eval_args sp en r with inr vs => inr (v :: vs) | inl x => inl x end
+              | EUB w => inl (RUB w)
+              | EStuck w => inl (RStuck w)
+              end
+  end.
+
 Fixpoint exec (sp : string * string) (rt : ity) (en : env) (s : stmt) : outcome :=
   match s with
   | SSkip | SEffect _ => ONext en
   | SSeq a b => match exec sp rt en a with ONext en' => exec sp rt en' b | d => d end
-  | SReturn e => lift (eval sp en e) (fun z => ODone (RVal (rt, conv rt z)))
+  | SReturn e => match eval sp en e with
+                 | EV (te, z) => ODone (match cast te rt z with EV v => RVal v | EUB w => RUB w | EStuck w => RStuck w end)
+                 | EUB w => ODone (RUB w) | EStuck w => ODone (RStuck w)
+                 end
   | SThrow m => ODone (match msg_text sp m with Some t => RThrow t | None => RStuck "exception text" end)
   | SIf c a b =>                     (* the condition is contextually converted to bool [stmt.select]; names
                                         declared in a branch go out of scope at its end [basic.scope.block] *)
       lift (eval sp en c) (fun z =>
-        match (if conv TBool z =? 0 then exec sp rt en b else exec sp rt en a) with ONext _ => ONext en | d => d end)
-  | SDecl t x e => lift (eval sp en e) (fun z => ONext ((x, (t, conv t z)) :: en))
+        match (if nonzero z then exec sp rt en a else exec sp rt en b) with ONext en' => ONext (leave en en') | d => d end)
+  | SDecl t x e => match eval sp en e with
+                   | EV (te, z) => match cast te t z with
+                                   | EV v => ONext ((x, v) :: en) | EUB w => ODone (RUB w) | EStuck w => ODone (RStuck w)
+                                   end
+                   | EUB w => ODone (RUB w) | EStuck w => ODone (RStuck w)
+                   end
+  | SAssign x e => match eval sp en e, lookup x en with
+                   | EV (te, z), Some (t, _) =>
+                       match cast te t z with
+                       | EV v => ONext (update x v en) | EUB w => ODone (RUB w) | EStuck w => ODone (RStuck w)
+                       end
+                   | EV _, None => ODone (RStuck ("assignment to the unbound name " ++ x))
+                   | EUB w, _ => ODone (RUB w) | EStuck w, _ => ODone (RStuck w)
+                   end
+  | SReturnVoid => ODone RVoid
+  | SReturnCall tag es => ODone (match eval_args sp en es with inr vs => RCall tag vs | inl r => r end)
   end.
 
 (* arguments are given with the parameter's name and must have exactly the parameter's type and a value inside it *)
